@@ -177,7 +177,7 @@ def fam_env_shipped(seed, shard, nshards, n):
                 yield f'env {spec} {opstr}', exp, f'env-{os.path.basename(path).split(".")[0]}-{tag}'
 
 
-def random_config(rng):
+def random_config(rng, stochastic_obs=0.0):
     """a random composition of built-in components with parameters valid for its reset function"""
     from gym_gridverse.grid_object import Color
 
@@ -229,6 +229,12 @@ def random_config(rng):
     hw = rng.randint(0, 3)
     area = [[-rng.randint(0, 5), 0], [-hw, hw]]
     obs = dict(name=ok, area=area)
+    if stochastic_obs and rng.random() < stochastic_obs:
+        # an observation function that draws (no shipped configuration has one); keeps move_obstacles or a
+        # random reset next to it more often than not, so that a shifted stream shows in the trajectory
+        obs = dict(name='stochastic_raytracing', area=area)
+        if rng.random() < 0.6 and not any(t['name'] == 'move_obstacles' for t in trans):
+            trans.append(dict(name='move_obstacles'))
 
     def term(depth=0):
         if depth < 2 and rng.random() < 0.4:
